@@ -41,7 +41,7 @@ type Assert struct {
 type Conc struct {
 	Tag      string `json:"tag"`      // suffix making kids and subjects unique (defeats the JWK cache)
 	AudForm  string `json:"audForm"`  // string | array
-	ScpForm  string `json:"scpForm"`  // scp-array | scope-string | scope-array
+	ScpForm  string `json:"scpForm"`  // scp-array | scope-string | scope-array | scp-and-scope
 	Strategy string `json:"strategy"` // spelling of a rule-level scopes matcher: list | exact | hierarchic | wildcard
 	Cache    string `json:"cache"`    // default | off
 	Extra    int64  `json:"extra"`    // seed of the additional claims
